@@ -174,7 +174,14 @@ struct Ctx {
     }
     void check(bool ok, const char* m, const std::string& witness = "") { ++checks; if (!ok) fail(m, witness); }
 
-    template <class T> void digest_add(const T* p, size_t n) { digest = hash_bytes(p, n * sizeof(T), digest); }
+    // result digest for the cross-configuration monitor (C06).  Sign and payload of a NaN produced by arithmetic are not specified (x86 keeps
+    // the payload of whichever operand the compiler happened to put first), so every NaN is canonicalised before hashing; everything else,
+    // including the sign of zero, is hashed bit for bit.
+    template <class T> typename std::enable_if<!std::is_floating_point<T>::value>::type digest_add(const T* p, size_t n) { digest = hash_bytes(p, n * sizeof(T), digest); }
+    template <class T> typename std::enable_if<std::is_floating_point<T>::value>::type digest_add(const T* p, size_t n) {
+        for (size_t i = 0; i < n; ++i) { T v = p[i]; if (v != v) v = std::numeric_limits<T>::quiet_NaN(); digest = hash_bytes(&v, sizeof(T), digest); }
+    }
+    template <class T> void digest_add(const std::complex<T>* p, size_t n) { digest_add(reinterpret_cast<const T*>(p), 2 * n); }
 
     // exact (bitwise, NaN==NaN) comparison of one element
     template <class T> bool eq(const T& got, const T& want, const char* what, long idx, const char* m = "mismatch") {
@@ -241,33 +248,6 @@ struct InLib {
 #define VP_LIB(...) do { ::vp::scrub_stack(); { ::vp::InLib vp_inlib_; __VA_ARGS__; } } while (0)
 
 // ------------------------------------------------------------------ frames (canaries around an owned object)
-// Raw aligned buffer [PRE | object | POST]; the object is placement-constructed.  The pads
-// are painted with a byte pattern and verified after the operation has returned.
-template <class Obj, size_t PAD = 256>
-struct Framed {
-    alignas(64) unsigned char raw[PAD + sizeof(Obj) + PAD + 64];
-    Obj* obj;
-    Framed() {
-        std::memset(raw, 0xC3, sizeof raw);
-        static_assert(PAD % 64 == 0, "pad keeps the object's alignment");
-        obj = new (raw + PAD) Obj;
-        launder(raw);
-    }
-    ~Framed() { obj->~Obj(); }
-    Obj& operator*() { return *obj; }
-    Obj* operator->() { return obj; }
-    // number of canary bytes that changed; records a failure in c
-    long verify(Ctx& c, const char* what) {
-        long changed = 0; long first = -1;
-        for (size_t i = 0; i < PAD; ++i) if (raw[i] != 0xC3) { ++changed; if (first < 0) first = (long)i - (long)PAD; }
-        for (size_t i = PAD + sizeof(Obj); i < sizeof raw; ++i) if (raw[i] != 0xC3) { ++changed; if (first < 0) first = (long)(i - PAD); }
-        c.guard_words += (long)((sizeof raw - sizeof(Obj)) / 8);
-        ++c.checks;
-        if (changed) c.fail("canary-changed", std::string(what) + ": " + std::to_string(changed) + " canary bytes changed, first at byte offset " + std::to_string(first) + " relative to object (size " + std::to_string(sizeof(Obj)) + ")");
-        return changed;
-    }
-};
-
 // ------------------------------------------------------------------ guard pages
 // A buffer of exactly `bytes` bytes placed flush against an inaccessible page.
 // tail=true : [ ... slack | buffer ][PROT_NONE]   (catches over-read/over-write)
@@ -313,6 +293,73 @@ struct Guard {
         return changed;
     }
 };
+
+#ifndef VP_GUARD_OPERANDS
+// Raw aligned buffer [PRE | object | POST]; the object is placement-constructed.  The pads
+// are painted with a byte pattern and verified after the operation has returned.
+template <class Obj, size_t PAD = 256>
+struct Framed {
+    alignas(64) unsigned char raw[PAD + sizeof(Obj) + PAD + 64];
+    Obj* obj;
+    Framed() {
+        std::memset(raw, 0xC3, sizeof raw);
+        static_assert(PAD % 64 == 0, "pad keeps the object's alignment");
+        obj = new (raw + PAD) Obj;
+        launder(raw);
+    }
+    ~Framed() { obj->~Obj(); }
+    Obj& operator*() { return *obj; }
+    Obj* operator->() { return obj; }
+    // number of canary bytes that changed; records a failure in c
+    long verify(Ctx& c, const char* what) {
+        long changed = 0; long first = -1;
+        for (size_t i = 0; i < PAD; ++i) if (raw[i] != 0xC3) { ++changed; if (first < 0) first = (long)i - (long)PAD; }
+        for (size_t i = PAD + sizeof(Obj); i < sizeof raw; ++i) if (raw[i] != 0xC3) { ++changed; if (first < 0) first = (long)(i - PAD); }
+        c.guard_words += (long)((sizeof raw - sizeof(Obj)) / 8);
+        ++c.checks;
+        if (changed) c.fail("canary-changed", std::string(what) + ": " + std::to_string(changed) + " canary bytes changed, first at byte offset " + std::to_string(first) + " relative to object (size " + std::to_string(sizeof(Obj)) + ")");
+        return changed;
+    }
+};
+#endif
+
+// ------------------------------------------------------------------ operand placement (C07 corpus mode)
+// With -DVP_GUARD_OPERANDS every tensor a driver declares with VP_OPERAND and every Framed object lives flush against an inaccessible
+// page: placement 0 puts the END of the object against the page (any read or write past the object faults), placement 1 the START (any
+// under-run faults); every case is executed once per placement.  Without the define the declarations are ordinary locals.
+inline int& placement() { static int p = 0; return p; }
+template <class Obj> struct GObj {
+    Guard g; Obj* obj;
+    GObj() : g(sizeof(Obj), placement() == 0, 0) { obj = new (g.buf) Obj; }
+    ~GObj() { obj->~Obj(); }
+    Obj& operator*() { return *obj; }
+    Obj* operator->() { return obj; }
+};
+#define VP_UNPAREN(...) __VA_ARGS__
+#ifdef VP_GUARD_OPERANDS
+#define VP_OPERAND(TYPE, NAME) ::vp::GObj<VP_UNPAREN TYPE> VP_CAT(NAME, _guarded); auto& NAME = *VP_CAT(NAME, _guarded)
+template <class Obj, size_t PAD = 256>
+struct Framed {
+    Guard g; Obj* obj; unsigned char* pad;
+    Framed() : g(PAD + sizeof(Obj), placement() == 0, 0) {
+        static_assert(PAD % 64 == 0, "pad keeps the object's alignment");
+        if (placement() == 0) { pad = g.buf; obj = new (g.buf + PAD) Obj; } else { obj = new (g.buf) Obj; pad = g.buf + sizeof(Obj); }
+        launder(g.buf);
+    }
+    ~Framed() { obj->~Obj(); }
+    Obj& operator*() { return *obj; }
+    Obj* operator->() { return obj; }
+    long verify(Ctx& c, const char* what) {
+        long changed = 0, first = -1;
+        for (size_t i = 0; i < PAD; ++i) if (pad[i] != 0xC3) { ++changed; if (first < 0) first = (long)(pad + i - (unsigned char*)obj); }
+        c.guard_words += (long)(PAD / 8); ++c.checks;
+        if (changed) c.fail("canary-changed", std::string(what) + ": " + std::to_string(changed) + " canary bytes changed, first at byte offset " + std::to_string(first) + " relative to object (size " + std::to_string(sizeof(Obj)) + ")");
+        return changed;
+    }
+};
+#else
+#define VP_OPERAND(TYPE, NAME) VP_UNPAREN TYPE NAME
+#endif
 
 // ------------------------------------------------------------------ value regimes
 // small integers in [-r, r] (exact in every floating type and summation order)
@@ -397,8 +444,8 @@ inline void emit(const Ctx& c) {
 inline void crash_handler(int sig, siginfo_t* si, void*) {
     char b[600]; const char* k = G().current_key;
     // escape is unnecessary: keys are generated from [A-Za-z0-9_|=,.:<>+-] only
-    int n = snprintf(b, sizeof b, "{\"k\":\"%s\",\"st\":\"crash\",\"n\":0,\"nb\":1,\"mode\":\"signal-%d\",\"fb\":\"signal %d at address %p (in_lib=%d)\"}\n",
-                     k, sig, sig, si ? si->si_addr : nullptr, (int)G().in_lib);
+    int n = snprintf(b, sizeof b, "{\"k\":\"%s\",\"st\":\"crash\",\"n\":0,\"nb\":1,\"mode\":\"signal-%d\",\"fb\":\"signal %d at address %p (in_lib=%d, placement=%d)\"}\n",
+                     k, sig, sig, si ? si->si_addr : nullptr, (int)G().in_lib, placement());
     ssize_t w = write(G().out_fd, b, (size_t)n); (void)w;
     _exit(100 + (sig & 31));
 }
@@ -433,7 +480,12 @@ inline int run_main(int argc, char** argv) {
         G().current_key = c.key; G().allocs = 0; G().in_lib = 0; G().routes = &c.routes;
         // progress marker so that the runner knows which case a sanitizer abort belongs to
         { std::string m = std::string("{\"k\":\"") + c.key + "\",\"st\":\"begin\",\"idx\":" + std::to_string(i) + "}\n"; ssize_t w = write(G().out_fd, m.data(), m.size()); (void)w; }
-        try { r[i].fn(c); }
+        try {
+            r[i].fn(c);
+#ifdef VP_GUARD_OPERANDS
+            placement() = 1; r[i].fn(c); placement() = 0;
+#endif
+        }
         catch (const std::exception& e) { G().in_lib = 0; c.status = "exc"; c.fail("exception", std::string("uncaught std::exception: ") + e.what()); }
         catch (...) { G().in_lib = 0; c.status = "exc"; c.fail("exception", "uncaught non-std exception"); }
         G().in_lib = 0; G().routes = nullptr;
